@@ -320,7 +320,16 @@ theorem and63_lt8 (x : W) (h : (x &&& 63#32).toNat < 8) : (x &&& 63#32).toNat = 
   simp only [BitVec.toNat_and, BitVec.toNat_ofNat, show (63 % 2 ^ 32) = 63 from rfl, show (7 % 2 ^ 32) = 7 from rfl,
     h63, h7] at h ⊢
   omega
-/-- both ALUs shift `v_lshl_add_u64` by `S1[5:0]`; the ISA function shifts by `S1[2:0]`: equal for counts below 8 -/
+theorem and7_toNat (X : BitVec 64) : (X &&& 7#64).toNat = (X.setWidth 32 &&& 7#32).toNat := by
+  simp only [BitVec.toNat_and, BitVec.toNat_setWidth, BitVec.toNat_ofNat]
+  have h : ∀ n : Nat, n &&& 7 = n % 8 := fun n => Nat.and_two_pow_sub_one_eq_mod n 3
+  simp only [show (7 % 2 ^ 64) = 7 from rfl, show (7 % 2 ^ 32) = 7 from rfl, h]
+  omega
+/-- repaired ALUs: `v_lshl_add_u64` shifts by `S1[2:0]`, as the ISA function does -/
+theorem lshl_add64_eq (X Z : BitVec 64) (y : W) : X <<< (y &&& 7#32).toNat + Z = lshlAdd64 X y Z := by
+  simp only [lshlAdd64, BitVec.shiftLeft_eq']
+/-- before the repair both ALUs shifted `v_lshl_add_u64` by `S1[5:0]`; the ISA function shifts by `S1[2:0]`: equal for
+    counts below 8 -/
 theorem lshl_add64_lt8 (X Z : BitVec 64) (y : W) (h : (y &&& 63#32).toNat < 8) :
     X <<< (y &&& 63#32).toNat + Z = lshlAdd64 X y Z := by
   simp only [lshlAdd64, BitVec.shiftLeft_eq', and63_lt8 y h]
